@@ -21,9 +21,11 @@ func genBytesN(t *rapid.T, label string, n int) []byte {
 	if n == 0 {
 		return []byte{}
 	}
-	shape := rapid.IntRange(0, 9).Draw(t, label+"_shape")
+	shape := rapid.IntRange(0, 11).Draw(t, label+"_shape")
 	b := make([]byte, n)
 	switch shape {
+	case 10, 11: // machine words with extreme values: where carries, borrows and sign bits live
+		fillWords(t, label, b)
 	case 0: // all zero
 	case 1:
 		for i := range b {
@@ -44,6 +46,50 @@ func genBytesN(t *rapid.T, label string, n int) []byte {
 		copy(b, rapid.SliceOfN(rapid.Byte(), n, n).Draw(t, label+"_rnd"))
 	}
 	return b
+}
+
+// fillWords fills b with 2-, 4- or 8-byte words (big- or little-endian alignment from either end) drawn
+// mostly from {0, all ones, top bit only, all but the top bit, 1, all ones minus 1} and otherwise at random.
+func fillWords(t *rapid.T, label string, b []byte) {
+	w := rapid.SampledFrom([]int{2, 4, 4, 8}).Draw(t, label+"_w")
+	off := 0
+	if rapid.Bool().Draw(t, label+"_fromend") {
+		off = len(b) % w
+	}
+	for i := range b[:off] {
+		b[i] = rapid.SampledFrom([]byte{0, 0xff, 1, 0x80}).Draw(t, label+"_head")
+		_ = i
+	}
+	for p := off; p < len(b); p += w {
+		end := p + w
+		if end > len(b) {
+			end = len(b)
+		}
+		word := b[p:end]
+		switch rapid.IntRange(0, 8).Draw(t, label+"_wv") {
+		case 0: // zero
+		case 1, 2:
+			for i := range word {
+				word[i] = 0xff
+			}
+		case 3:
+			word[0] = 0x80
+		case 4:
+			for i := range word {
+				word[i] = 0xff
+			}
+			word[0] = 0x7f
+		case 5:
+			word[len(word)-1] = 1
+		case 6:
+			for i := range word {
+				word[i] = 0xff
+			}
+			word[len(word)-1] = 0xfe
+		default:
+			copy(word, rapid.SliceOfN(rapid.Byte(), len(word), len(word)).Draw(t, label+"_wr"))
+		}
+	}
 }
 
 // genBytes draws a biased byte string with length in [min,max].
@@ -206,7 +252,11 @@ var (
 // leading zero bytes.
 func genScalar(t *rapid.T, label string) []byte {
 	var k *big.Int
-	switch rapid.IntRange(0, 7).Draw(t, label+"_shape") {
+	switch rapid.IntRange(0, 9).Draw(t, label+"_shape") {
+	case 8, 9: // extreme machine words (carries between limbs)
+		wb := make([]byte, 32)
+		fillWords(t, label, wb)
+		k = new(big.Int).SetBytes(wb)
 	case 0:
 		k = big.NewInt(1)
 	case 1:
